@@ -131,6 +131,14 @@ class Z3Translator:
             return z3.Concat(a[0], a[1])
         if op == 'bv2real':
             return z3.ToReal(z3.BV2Int(a[0], is_signed=bool(n.val)))
+        if op == 'to_fp_ubv':
+            return z3.fpUnsignedToFP(_rne(), a[0], z3.Float64())
+        if op == 'to_fp_sbv':
+            return z3.fpSignedToFP(_rne(), a[0], z3.Float64())
+        if op == 'fp.to_ubv':
+            return z3.fpToUBV(z3.RTZ(), a[0], z3.BitVecSort(n.val))
+        if op == 'fp.to_sbv':
+            return z3.fpToSBV(z3.RTZ(), a[0], z3.BitVecSort(n.val))
         if op == 'fp.add':
             return z3.fpAdd(_rne(), a[0], a[1])
         if op == 'fp.sub':
